@@ -267,3 +267,96 @@ def rule_positional_index(check, rule, funckeys):
                 check.holds(rule, st, 'positional index %r of %s: no removal/insertion/rebinding of the list reaches a use without re-derivation'
                             % (D, X), key=k)
     return n_idx
+
+
+LAZY_BUILTINS = ('map', 'filter', 'zip', 'iter', 'enumerate', 'reversed')
+
+
+def rule_lazy_iterators(check, rule, module_names=('_signatures', '_autoforwards', 'modifiers', '_util', 'specifiers', 'wrappers')):
+    """A generator expression (or map/filter/zip/... object) reads its source container when it is *consumed*, not where it
+    is written.  If the container is emptied or edited between the two, the consumer sees the edited container: a
+    "compute, clear, then store" sequence stores nothing.  Rule: no removal from / clearing of / rebinding-in-place of a
+    container between the creation of a lazy iterator over it and the first use of that iterator.  Zero-expected on the
+    pinned tree (lazy iterators are consumed in the statement that creates them); the self-test keeps a positive example."""
+    repo = check.repo
+    n = 0
+    found = 0
+    for fi in repo.all_funcs():
+        if fi.module.name not in module_names:
+            continue
+        _parents(fi.node)
+        for stmt in ast.walk(fi.node):
+            if not (isinstance(stmt, ast.Assign) and len(stmt.targets) == 1 and isinstance(stmt.targets[0], ast.Name)):
+                continue
+            v = stmt.value
+            lazy = isinstance(v, ast.GeneratorExp) or (isinstance(v, ast.Call) and isinstance(v.func, ast.Name) and v.func.id in LAZY_BUILTINS)
+            if not lazy:
+                continue
+            name = stmt.targets[0].id
+            if isinstance(v, ast.GeneratorExp):
+                srcs = [norm(g.iter) for g in v.generators]
+            else:
+                srcs = [norm(a) for a in v.args]
+            srcs = [s for s in srcs if s and not s.startswith(('(', '['))]
+            pos = _block_pos(stmt)
+            if pos is None:
+                continue
+            parent, field, idx = pos
+            later = getattr(parent, field)[idx + 1:]
+            n += 1
+            use_at = None
+            for j, st_ in enumerate(later):
+                if any(isinstance(x, ast.Name) and x.id == name and isinstance(x.ctx, ast.Load) for x in ast.walk(st_)):
+                    use_at = j
+                    break
+            if use_at is None:
+                continue
+            for st_ in later[:use_at]:
+                hit = None
+                for x in ast.walk(st_):
+                    if isinstance(x, (ast.Assign, ast.AugAssign)):
+                        for t in (x.targets if isinstance(x, ast.Assign) else [x.target]):
+                            if isinstance(t, ast.Subscript) and norm(t.value) in srcs:
+                                hit = (x, '%s[...] = ...' % norm(t.value))
+                    elif isinstance(x, ast.Delete):
+                        for t in x.targets:
+                            if isinstance(t, ast.Subscript) and norm(t.value) in srcs:
+                                hit = (x, 'del %s[...]' % norm(t.value))
+                    elif isinstance(x, ast.Call) and isinstance(x.func, ast.Attribute) and x.func.attr in MUT and norm(x.func.value) in srcs:
+                        hit = (x, '%s.%s()' % (norm(x.func.value), x.func.attr))
+                if hit is not None:
+                    found += 1
+                    check.violation(rule, '%s %s' % (fi.loc(hit[0]), fi.key), 'the lazy iterator %r over %s (line %d) is consumed at line %d, after %s: it '
+                                    'yields what the container holds *then* -- what was meant to be carried over is lost'
+                                    % (name, ', '.join(srcs), stmt.lineno, later[use_at].lineno, hit[1]), key='%s|lazy|%s' % (fi.key, name),
+                                    witness="merge(s('a, b'), s('a, *args')) must be (a, b, /), not (b, /)")
+    if not found:
+        check.holds(rule, 'sigtools/_signatures.py:0 _signatures', 'no lazy iterator is consumed after its source container was edited (%d lazy iterators '
+                    'bound to names)' % n, key='lazy|none', nontrivial=False)
+
+
+MEMO_DECORATORS = ('lru_cache', 'cache', 'cached_property')
+
+
+def rule_no_memoisation(check, rule, module_names, why):
+    """No function of the named modules is wrapped in functools.lru_cache / cache / cached_property.  Such a memo is keyed by
+    *equality and hash* of the arguments (`1 == True == 1.0`, equal-but-different signatures share an entry), raises for
+    unhashable arguments, and hands the same mutable result object to every caller -- the outcome of a call then depends on
+    the calls made before it.  Zero-expected on the pinned tree; the self-test keeps a positive example."""
+    repo = check.repo
+    n = 0
+    hits = 0
+    for fi in repo.all_funcs():
+        if fi.module.name not in module_names:
+            continue
+        n += 1
+        for d in fi.decorators:
+            txt = norm(d.func if isinstance(d, ast.Call) else d)
+            if txt.split('.')[-1] in MEMO_DECORATORS:
+                hits += 1
+                check.violation(rule, '%s %s' % (fi.loc(d), fi.key), '%s is memoised with %s: %s' % (fi.qualname, txt, why),
+                                key='%s|memoised' % fi.key,
+                                witness='func_from_sig(sig(a, b=1)) then func_from_sig(sig(a, b=True)) returns the first function')
+    if not hits:
+        check.holds(rule, 'sigtools/%s.py:0 %s' % (module_names[0], module_names[0]), 'none of the %d functions of %s is wrapped in a memoising decorator'
+                    % (n, ', '.join(module_names)), key='memoised|none|%s' % module_names[0], nontrivial=False)
